@@ -499,3 +499,190 @@ Proof.
   - rewrite (OT j Nj). specialize (WS j Hj). destruct ph; cbn [wstate] in *; destruct WS as (W1 & W2 & W3 & W4);
       (split; [exact W1|]); (split; [intros X; injection X as X; congruence|split; assumption]).
 Qed.
+
+Lemma vpc_ended p : pcG p = true -> pc_is p GRfLoad = pc_is (vpc p) RfLoad /\ pc_is p GClose = pc_is (vpc p) CClose.
+Proof. destruct p; cbn; intros H; try discriminate; split; reflexivity. Qed.
+Lemma vpc_GI p : pcG p = true -> (vpc p = IvLoad \/ vpc p = IvCas) -> pcGI p = true.
+Proof. destruct p; cbn; intros H [X|X]; try discriminate; reflexivity. Qed.
+Lemma vpc_GR p : pcG p = true -> pcR (vpc p) = true -> pcGR p = true.
+Proof. destruct p; cbn; intros H X; try discriminate; reflexivity. Qed.
+Lemma pcGI_G p : pcGI p = true -> pcG p = true /\ pc_is p LLook2 = false /\ pc_is p CStore || pc_is p CClose || pc_is p GClose = false /\ pcGR p = false.
+Proof. destruct p; cbn; intros H; try discriminate; auto. Qed.
+Lemma pcGR_G p : pcGR p = true -> pcG p = true /\ pc_is p LLook2 = false /\ pc_is p CStore || pc_is p CClose || pc_is p GClose = false /\ pcGI p = false.
+Proof. destruct p; cbn; intros H; try discriminate; auto. Qed.
+
+Lemma core3_run ms t ms' t' r c w ws : MW ms -> m_walks t = w :: ws -> w_own w = Some (r, c) ->
+  CIb ms (bview t r c ws) -> NW ms t r c w -> m_pc t = MRun ->
+  mstep_core ms t = (ms', t') -> step3 ms t ms' t'.
+Proof.
+  intros W Hw Ho IB (Gr & NL & RC & _ & g0 & P2 & PG & NN & QC & PH) Hpc H.
+  rewrite Hpc in PH. destruct PH as (pre & rest & SR & SN & SO & IC & RV & WS). pose proof RC as (Hc & Hcl & Hr).
+  pose proof (MW_MS _ W) as S. pose proof SO as [ND SC].
+  destruct w as [rest0 snap ph own]. cbn [w_own w_rest w_snap w_ph] in *. subst own snap rest0.
+  set (c' := m_c t) in *.
+  destruct (SC c' ltac:(apply in_or_app; right; left; reflexivity)) as [Hc' Hcl'].
+  assert (LEN : lens_ok ms t = true).
+  { unfold lens_ok. destruct IB as [LB _]. unfold bview in LB. destruct r; try (destruct Hr; fail); cbn in LB; rewrite ?upd_len in LB;
+      rewrite LB, NL; fold (nc ms); rewrite Nat.eqb_refl; reflexivity. }
+  assert (FOC : focus_ok ms t = true).
+  { unfold focus_ok. rewrite Hpc. fold c'. rewrite RV. unfold visit_role. cbn [w_own]. unfold rc_ok. fold (nc ms).
+    apply Nat.ltb_lt in Hc'. rewrite Hc', Hcl'. destruct (Nat.eqb c' c) eqn:E; [|reflexivity].
+    apply Nat.eqb_eq in E. destruct r; auto; try contradiction. destruct Hr as [-> ->]. rewrite E, Nat.eqb_refl. reflexivity. }
+  unfold mstep_core in H. rewrite Hpc in H. cbv zeta in H. fold c' in H.
+  assert (TAIL : forall r0 s' u', m_role t = r0 -> step_thread np0 (proj c' ms) (gett t r0 c') = (s', u') ->
+    pc_is (t_pc (gett t r0 c')) LLook2 && pc_is (t_pc u') GIvLoad = false ->
+    pc_is (t_pc (gett t r0 c')) CStore || pc_is (t_pc (gett t r0 c')) CClose || pc_is (t_pc (gett t r0 c')) GClose = false ->
+    file_part s' = file_part (proj c' ms) -> length (s_cells s') = length (s_cells (proj c' ms)) ->
+    (forall j, j <> c' -> VF (sett t r0 c' u') r c g0 j = VF t r c g0 j) ->
+    t_prev (VF (sett t r0 c' u') r c g0 c') = Some g0 ->
+    (match ph with PInv => inI (VF (sett t r0 c' u') r c g0 c') \/ t_pc (VF (sett t r0 c' u') r c g0 c') = RfLoad
+                 | PRef => pcR (t_pc (VF (sett t r0 c' u') r c g0 c')) = true \/ t_pc (VF (sett t r0 c' u') r c g0 c') = CClose end) ->
+    visit_ended (mkW rest (pre ++ c' :: rest) ph (Some (r, c))) c' u' =
+      (match ph with PInv => pc_is (t_pc (VF (sett t r0 c' u') r c g0 c')) RfLoad | PRef => pc_is (t_pc (VF (sett t r0 c' u') r c g0 c')) CClose end) ->
+    (t_prev2 (gett (sett t r0 c' u') r c) = Some g0 /\ pcG (t_pc (gett (sett t r0 c' u') r c)) = true /\
+     (forall j, (j < nc ms)%nat -> j <> c ->
+        t_kind (nth j (m_nest (sett t r0 c' u')) dflt) = Changer /\ t_prev (nth j (m_nest (sett t r0 c' u')) dflt) = Some g0 /\
+        t_prev2 (nth j (m_nest (sett t r0 c' u')) dflt) <> None) /\
+     quietb (nth c (m_nest (sett t r0 c' u')) dflt) = true) ->
+    length (m_nest (sett t r0 c' u')) = nc ms -> m_grown (sett t r0 c' u') = true ->
+    CIb ms (bview (sett t r0 c' u') r c ws) -> rc3 ms (sett t r0 c' u') r c ->
+    m_isadd (sett t r0 c' u') = m_isadd t /\ m_k (sett t r0 c' u') = m_k t /\ m_pc (sett t r0 c' u') = MRun /\
+    m_c (sett t r0 c' u') = c' /\ m_role (sett t r0 c' u') = r0 /\ m_walks (sett t r0 c' u') = m_walks t ->
+    step3 ms t ms' t').
+  { intros r0 s' u' Er Es Hg Hb FP LC OT PV CL VE (Q1 & Q2 & Q3 & Q4) NL' GR' IB' RC' (F1 & F2 & F3 & F4 & F5 & F6).
+    rewrite Er, Es, Hg in H. cbn [andb] in H. rewrite Hb, set_chk_false, Hw, VE in H.
+    destruct (inj_shared c' ms s' Hc' S FP LC) as [G S']. pose proof G as [N _].
+    destruct (visit_wstate ph pre c' rest (VF t r c g0) (VF (sett t r0 c' u') r c g0) g0 (nc ms) ND WS OT PV CL) as [VW1 VW2].
+    set (T1 := sett t r0 c' u') in *.
+    assert (COMMON : forall TT, m_walks TT = m_walks t -> gett TT r c = gett T1 r c -> m_nest TT = m_nest T1 ->
+              m_grown TT = true -> m_isadd TT = m_isadd t -> m_k TT = m_k t -> m_main TT = m_main T1 -> m_redo TT = m_redo T1 ->
+              m_tgt TT = m_tgt T1 -> m_wrote TT = m_wrote T1 -> m_prev TT = m_prev T1 ->
+              (m_pc TT = MRun \/ m_pc TT = MNext) ->
+              match m_pc TT with
+              | MRun => exists pre0 rest0, rest = rest0 /\ pre ++ c' :: rest = pre0 ++ m_c TT :: rest0 /\
+                  m_role TT = visit_role (mkW rest (pre ++ c' :: rest) ph (Some (r, c))) (m_c TT) /\
+                  forall j, (j < nc ms)%nat -> wstate ph pre0 (Some (m_c TT)) rest0 (pre ++ c' :: rest) j (VF T1 r c g0 j)
+              | MNext => exists pre0, pre ++ c' :: rest = pre0 ++ rest /\
+                  forall j, (j < nc ms)%nat -> wstate ph pre0 None rest (pre ++ c' :: rest) j (VF T1 r c g0 j)
+              | _ => False
+              end -> step3 ms t (inj c' ms s') TT).
+    { intros TT E1 E2 E3 E4 E5 E6 E7 E8 E9 E10 E11 EP PHASE. right. split; [reflexivity|]. split; [reflexivity|]. split.
+      { unfold T3. rewrite E1, Hw. cbn [w_own]. split.
+        - apply (CIb_cong (inj c' ms s') (bview T1 r c ws)).
+          + unfold bview, same_ctl. rewrite E2. destruct r; cbn; rewrite ?E5, ?E6, ?E7, ?E8, ?E9, ?E10, ?E11; repeat split; auto; rewrite ?F1, ?F2; auto.
+          + apply (CIb_mono ms); [exact G | exact IB'].
+        - unfold NW. rewrite E4, E3, E2, N. cbn [w_own w_rest w_snap w_ph].
+          split; [reflexivity|]. split; [exact NL'|]. split. { unfold rc3. rewrite E7, E5, E6, N. unfold rc3 in RC'. rewrite F1, F2 in RC'. exact RC'. }
+          split; [reflexivity|]. exists g0. split; [exact Q1|]. split; [exact Q2|]. split; [exact Q3|]. split; [exact Q4|].
+          assert (VE' : forall j, VF TT r c g0 j = VF T1 r c g0 j) by (intros j; unfold VF; rewrite E2, E3; reflexivity).
+          destruct EP as [EP|EP]; rewrite EP in PHASE |- *.
+          + destruct PHASE as (pre0 & rest0 & P1 & P2' & P3 & P4). exists pre0, rest0. split; [auto|]. split; [exact P2'|].
+            split; [eapply snap_ok_mono; eauto|]. split; [exact IC|]. split; [exact P3|]. intros j Hj. rewrite VE'. apply P4. exact Hj.
+          + destruct PHASE as (pre0 & P1 & P4). exists pre0. split; [exact P1|].
+            split; [eapply snap_ok_mono; eauto|]. split; [exact IC|]. intros j Hj. rewrite VE'. apply P4. exact Hj. }
+      split; [exact G|]. split; [exact S'|]. split; [exact E5|]. split; [exact E6|]. split; [exact LEN|]. split; [exact FOC|].
+      unfold done_ok. destruct EP as [-> | ->]; reflexivity. }
+    destruct (match ph with PInv => pc_is (t_pc (VF T1 r c g0 c')) RfLoad | PRef => pc_is (t_pc (VF T1 r c g0 c')) CClose end) eqn:Ev;
+      injection H as <- <-.
+    - (* ended *)
+      apply COMMON; try reflexivity; cbn; auto; try (right; reflexivity).
+      exists (pre ++ [c']). split; [rewrite <- app_assoc; reflexivity|]. apply VW1.
+      destruct ph; apply pc_is_eq in Ev; exact Ev.
+    - (* still visiting *)
+      apply COMMON; try reflexivity; auto; try (left; exact F3). rewrite F3.
+      exists pre, rest. split; [reflexivity|]. rewrite F4, F5. split; [reflexivity|]. split; [rewrite <- Er; exact RV|]. apply VW2.
+      destruct ph; intros X; rewrite X in Ev; discriminate. }
+  rewrite RV in H. unfold visit_role in RV, H. cbn [w_own] in RV, H.
+  destruct (Nat.eqb c' c) eqn:Ecc.
+  - (* the own thread, at its G program points *)
+    apply Nat.eqb_eq in Ecc. rewrite Ecc in *.
+    set (O := gett t r c) in *.
+    assert (CLS : match ph with PInv => pcGI (t_pc O) = true | PRef => pcGR (t_pc O) = true end).
+    { specialize (WS c Hc). unfold VF in WS. rewrite Nat.eqb_refl in WS. fold O in WS.
+      destruct ph; cbn [wstate] in WS; destruct WS as (_ & WC & _); specialize (WC eq_refl).
+      - apply vpc_GI; [exact PG | exact WC].
+      - apply vpc_GR; [exact PG | exact WC]. }
+    destruct (step_thread np0 (proj c ms) O) as [s' u'] eqn:Es.
+    assert (GG : pcGI (t_pc O) = true \/ pcGR (t_pc O) = true) by (destruct ph; auto).
+    destruct (stepG _ _ _ _ _ Es GG) as (D1 & D2 & D3 & D4 & D5 & D6 & D7).
+    assert (OF : pc_is (t_pc O) LLook2 = false /\ pc_is (t_pc O) CStore || pc_is (t_pc O) CClose || pc_is (t_pc O) GClose = false)
+      by (destruct ph; [destruct (pcGI_G _ CLS) as (_ & A & B & _) | destruct (pcGR_G _ CLS) as (_ & A & B & _)]; auto).
+    destruct OF as [OF1 OF2].
+    assert (GU : pcG (t_pc u') = true /\
+                 match ph with PInv => inI (virt g0 u') \/ t_pc (virt g0 u') = RfLoad
+                             | PRef => pcR (t_pc (virt g0 u')) = true \/ t_pc (virt g0 u') = CClose end).
+    { destruct ph.
+      - rewrite CLS in D1. destruct D1 as [X|X]; [|split; [rewrite X; reflexivity|right; unfold virt; cbn; rewrite X; reflexivity]].
+        split; [apply (pcGI_G _ X)|]. left. unfold inI, virt. cbn. destruct (t_pc u'); cbn in X; try discriminate; auto.
+      - destruct (pcGR_G _ CLS) as (_ & _ & _ & NGI). rewrite NGI in D1.
+        destruct D1 as [X|X]; [|split; [rewrite X; reflexivity|right; unfold virt; cbn; rewrite X; reflexivity]].
+        split; [apply (pcGR_G _ X)|]. left. unfold virt. cbn. destruct (t_pc u'); cbn in X; try discriminate; reflexivity. }
+    destruct GU as [GU1 GU2].
+    assert (GS : gett (sett t r c u') r c = u') by (apply gett_sett; apply (rc3_len _ _ _ _ RC)).
+    assert (NS : m_nest (sett t r c u') = m_nest t) by (destruct r; try contradiction; reflexivity).
+    apply (TAIL r s' u' RV Es); fold O; auto.
+    + rewrite OF1. reflexivity.
+    + intros j Hj. unfold VF. apply Nat.eqb_neq in Hj. rewrite Hj, NS. reflexivity.
+    + unfold VF. rewrite Nat.eqb_refl. reflexivity.
+    + unfold VF. rewrite Nat.eqb_refl, GS. exact GU2.
+    + unfold visit_ended, is_own. cbn [w_own w_ph]. rewrite Nat.eqb_refl. unfold VF. rewrite Nat.eqb_refl, GS.
+      destruct (vpc_ended _ GU1) as [V1 V2]. destruct ph; [exact V1 | exact V2].
+    + rewrite GS, NS. split; [congruence|]. split; [exact GU1|]. split; [exact NN | exact QC].
+    + rewrite NS. exact NL.
+    + destruct r; try contradiction; exact Gr.
+    + apply (CIb_cong ms (sett (bview t r c ws) (m_role (bview t r c ws)) (m_c (bview t r c ws)) (with_pc u' LCas))).
+      * unfold bview, same_ctl. fold O. rewrite GS. destruct r; try contradiction; cbn; rewrite ?upd_upd; repeat split; auto.
+      * apply CIb_swap; [exact IB | reflexivity|]. unfold bview. cbn [m_role m_c with_focus]. fold O.
+        assert (GE : gett (with_focus (with_walks (sett t r c (with_pc O LCas)) MRun ws) MRun r c) r c = with_pc O LCas).
+        { destruct r; cbn; try contradiction; [apply nth_upd_same; exact Hr | reflexivity]. }
+        rewrite GE. unfold sameC. cbn. repeat split; auto.
+    + unfold rc3. destruct r; try contradiction; cbn; rewrite ?upd_len; auto.
+    + destruct r; try contradiction; cbn; repeat split; auto.
+  - (* a SameFile changer of another counter *)
+    apply Nat.eqb_neq in Ecc. cbn [gett] in *.
+    set (u := nth c' (m_nest t) dflt) in *.
+    destruct (NN c' Hc' Ecc) as (K1 & K2 & K3). fold u in K1, K2, K3.
+    assert (VU : VF t r c g0 c' = u) by (unfold VF; apply Nat.eqb_neq in Ecc; rewrite Ecc; reflexivity).
+    destruct (step_thread np0 (proj c' ms) u) as [s' u'] eqn:Es.
+    pose proof (llook2_prev2 _ _ _ _ _ Es K3) as NGB.
+    assert (D : (match ph with PInv => inI u' \/ t_pc u' = RfLoad | PRef => pcR (t_pc u') = true \/ t_pc u' = CClose end) /\
+                t_kind u' = Changer /\ t_prev u' = Some g0 /\ file_part s' = file_part (proj c' ms) /\
+                length (s_cells s') = length (s_cells (proj c' ms)) /\
+                pc_is (t_pc u) CStore || pc_is (t_pc u) CClose || pc_is (t_pc u) GClose = false /\
+                (match ph with PInv => pc_is (t_pc u') RfLoad | PRef => pc_is (t_pc u') CClose || pc_is (t_pc u') Done end) =
+                (match ph with PInv => pc_is (t_pc u') RfLoad | PRef => pc_is (t_pc u') CClose end)).
+    { specialize (WS c' Hc'). rewrite VU in WS. destruct ph; cbn [wstate] in WS; destruct WS as (_ & WC & _); specialize (WC eq_refl).
+      - destruct (stepI _ _ _ _ _ Es WC) as (D1 & D2 & D3 & D4 & D5). destruct (inI_not _ WC) as (_ & N2 & N3 & N4 & _).
+        rewrite N2, N3, N4. repeat split; try congruence; try exact D1.
+      - destruct (stepR2 _ _ _ _ _ Es WC K1 NGB) as (D1 & D2 & D3 & D4 & D5). destruct (pcR_not _ WC) as (_ & N2 & N3 & N4 & _).
+        rewrite N2, N3, N4.
+        assert (D1' : pcR (t_pc u') = true \/ t_pc u' = CClose).
+        { destruct D1 as [X|X]; [left; exact X|right]. unfold fin in X. rewrite D3, K2 in X. exact X. }
+        repeat split; try congruence; try exact D1'.
+        destruct D1' as [X|X]; [destruct (pcR_not _ X) as (_ & _ & Q1 & _ & Q2 & _); rewrite Q1, Q2; reflexivity | rewrite X; reflexivity]. }
+    destruct D as (D1 & D2 & D3 & D4 & D5 & D6 & D7).
+    assert (P2U : t_prev2 u' <> None).
+    { destruct (step_prev2 _ _ _ _ _ Es) as [X|[X1 X2]]; [congruence|]. unfold nogrowb in NGB. rewrite X1, X2 in NGB. discriminate. }
+    assert (NU : nth c' (upd (m_nest t) c' u') dflt = u') by (apply nth_upd_same; rewrite NL; exact Hc').
+    assert (GS : gett (sett t RNest c' u') r c = gett t r c) by (destruct r; try contradiction; reflexivity).
+    assert (VU' : VF (sett t RNest c' u') r c g0 c' = u').
+    { unfold VF. apply Nat.eqb_neq in Ecc. rewrite Ecc. cbn. exact NU. }
+    apply (TAIL RNest s' u' RV Es); cbn [gett]; fold u.
+    + unfold nogrowb in NGB. apply negb_true_iff in NGB. exact NGB.
+    + exact D6.
+    + exact D4.
+    + exact D5.
+    + intros j Hj. unfold VF. rewrite GS. destruct (Nat.eqb j c); [reflexivity|]. cbn. apply nth_upd_other. exact Hj.
+    + rewrite VU'. exact D3.
+    + rewrite VU'. exact D1.
+    + unfold visit_ended, is_own. cbn [w_own w_ph]. apply Nat.eqb_neq in Ecc. rewrite Ecc. rewrite VU'. exact D7.
+    + rewrite GS. split; [exact P2|]. split; [exact PG|]. split.
+      * intros j Hj Nj. cbn. destruct (Nat.eq_dec j c') as [->|Njc]; [rewrite NU; auto|]. rewrite nth_upd_other by exact Njc. apply NN; assumption.
+      * cbn. rewrite nth_upd_other by (intros X; apply Ecc; auto). exact QC.
+    + cbn. rewrite upd_len. exact NL.
+    + exact Gr.
+    + apply (CIb_cong ms (bview t r c ws)); [|exact IB].
+      unfold bview, same_ctl. rewrite GS. destruct r; try contradiction; cbn; repeat split; auto.
+    + unfold rc3. cbn. exact RC.
+    + cbn. repeat split; auto.
+Qed.
